@@ -121,14 +121,10 @@ theorem buildNew_unlocked_refines {c : CW} {s : WS} (hi : Inv c) (hb : Bounds c)
   have hGlocs := Mustache.Proofs.Rows.getArch_locs A M Shared.null
   have hGfresh := getArch_notInRow M Shared.null hfreshA
   have hGstep := getArch_step hs1.ok M Shared.null h.id (fun _ => hMok)
-  have hGkeys : AllKeys (fun _ x => SharedIn w.pool x) (A.getArch M Shared.null).1 ∧
-      AllKeys (fun mk _ => ClosedUnder w.deps mk) (A.getArch M Shared.null).1 := by
+  have hGkeys : AllKeys (fun _ x => SharedIn w.pool x) (A.getArch M Shared.null).1 := by
     have hA1 : AllKeys (fun _ x => SharedIn w.pool x) A := by
       intro a ha'; rw [harchsA] at ha'; exact hi.shared a ha'
-    have hA2 : AllKeys (fun mk _ => ClosedUnder w.deps mk) A := by
-      intro a ha'; rw [harchsA] at ha'; exact hi.closed a ha'
-    refine ⟨AllKeys.getArch hA1 M Shared.null (sharedIn_null _), AllKeys.getArch hA2 M Shared.null ?_⟩
-    rw [hAdeps]; exact closedMask_closed hi.depsB M
+    exact AllKeys.getArch hA1 M Shared.null (sharedIn_null _)
   generalize hGdef : (A.getArch M Shared.null).1 = G at *
   generalize haidef : (A.getArch M Shared.null).2 = ai at *
   generalize htmdef : closedMask w.deps M = tm at *
@@ -158,13 +154,9 @@ theorem buildNew_unlocked_refines {c : CW} {s : WS} (hi : Inv c) (hb : Bounds c)
     rw [← hGlocs]; exact hmv.step.llen
   have hks : KeysSame G w3 := (insertRow_keysSame G ai h _ hailt).trans hloop.2.2
   have hsh' : SharedPooled w3 := by
-    have h2 := hGkeys.1.keysSame hks
+    have h2 := hGkeys.keysSame hks
     show AllKeys (fun _ x => SharedIn w3.pool x) w3
     rw [hctl.pool]; exact h2
-  have hcl' : Mustache.Model.ArchsClosed w3.deps w3.archs := by
-    have h2 := hGkeys.2.keysSame hks
-    show AllKeys (fun mk _ => ClosedUnder w3.deps mk) w3
-    rw [hctl.deps]; exact h2
   have hcbs2 := hloop.2.1
   simp only [List.nil_append] at hcbs2
   have hstepeq : CW.step info ⟨w, iss⟩ (.buildNew t adds) =
@@ -202,7 +194,7 @@ theorem buildNew_unlocked_refines {c : CW} {s : WS} (hi : Inv c) (hb : Bounds c)
       rcases List.mem_map.mp hm with ⟨p, hp, hpx⟩
       have := List.find?_eq_none.mp hf p hp
       simp [hpx] at this
-  have hborn := born_refines hi hr hl2 htab1 htabA.2 hstep howns hfresh hsh' hcl' hctl hmk hcov hb' _ hx
+  have hborn := born_refines hi hr hl2 htab1 htabA.2 hstep howns hfresh hsh' hctl hmk hcov hb' _ hx
   have hs : s.step info (Op.mapRef (ordOf iss) (.buildNew t adds)) =
       ({ s with ents := s.ents ++ [some ⟨rebuild info [] tm (adds.map (fun p => (p.1, storedVal info p.1 p.2))), []⟩] },
         .created s.ents.length, cbDiff info s.ents.length [] tm) := by
